@@ -1,6 +1,7 @@
 //! C20, pallas-network2 half: logical senders share the real write half behind
-//! the same `Arc<tokio::sync::Mutex<_>>` the interface uses and call the real
-//! `write_message`; a reader task loops on the real `read_full_msgs`. Every
+//! the interface's `SharedWriter` and go through the interface's real
+//! per-message send path (`interface::send`, hook H5 `verif_send`: lock the
+//! writer, `write_message`); a reader task loops on the real `read_full_msgs`. Every
 //! schedule within the delay bound is executed over an in-memory pipe (H2).
 
 use mc_core::sched::{self, yield_now, Execution, Tasks};
@@ -50,6 +51,10 @@ fn scenarios(thorough: bool) -> Vec<Sc> {
     }
     // a message larger than one segment (two segments) next to small ones
     v.push(Sc { name: "N3-multi-segment-message", pipe: 4096, senders: vec![vec![bf_block(70_000), bf_block(3)], vec![ka(2), ka(3)]], mode: 0 });
+    // two sends queued on ONE protocol, each larger than a segment, against back-pressure: the
+    // segments of one message must not be interleaved with the other's (either message may
+    // come first: both sends are in flight at once, as in the interface's FuturesUnordered)
+    v.push(Sc { name: "N4-two-multi-segment-sends-one-protocol", pipe: 4096, senders: vec![vec![bf_block(70_000)], vec![bf_block(66_000)]], mode: 0 });
     v
 }
 
@@ -91,11 +96,9 @@ fn build(sc: &Sc) -> (Tasks, Rc<RefCell<Obs>>) {
         let mode = sc.mode;
         tasks.spawn(&format!("sender{i}"), async move {
             for (k, m) in msgs.into_iter().enumerate() {
-                let mut g = w.lock().await;
-                if let Err(e) = g.write_message(m, k as u32, mode).await {
+                if let Err(e) = pallas_network2::interface::verif_send(w.clone(), m, k as u32, mode).await {
                     o.borrow_mut().errors.push(format!("sender{i}: {e}"));
                 }
-                drop(g);
                 yield_now().await;
             }
         });
@@ -117,13 +120,19 @@ pub fn run_part(ctx: &Ctx) -> PartResult {
                     want.entry(m.channel()).or_default().push(m.payload());
                 }
             }
+            let mut want_n = want.clone();
+            if sc.name.starts_with("N4") {
+                for v in want_n.values_mut() {
+                    v.sort();
+                }
+            }
             let horizon = 3000;
             let mut orders: BTreeSet<Vec<u16>> = BTreeSet::new();
             let mut samples = vec![];
             let mut total = (0u64, 0u64);
             let mut capped = false;
             let mut per_bound = vec![];
-            let bmax = if sc.name.starts_with("N3") { 1 } else { bound_max };
+            let bmax = if sc.name.starts_with("N3") || sc.name.starts_with("N4") { 1 } else { bound_max };
             for bound in 0..=bmax {
                 let b = || build(sc);
                 let mut bad = 0;
@@ -143,7 +152,12 @@ pub fn run_part(ctx: &Ctx) -> PartResult {
                     for (c, p) in &o.got {
                         got.entry(*c).or_default().push(p.clone());
                     }
-                    if got != want {
+                    if sc.name.starts_with("N4") {
+                        for v in got.values_mut() {
+                            v.sort();
+                        }
+                    }
+                    if got != want_n {
                         ctx.violation(
                             format!("C20:net2:{}:delivery", sc.name),
                             format!("per-channel message sequences differ: got {:?} expected {:?}", got.iter().map(|(k, v)| (*k, v.len())).collect::<Vec<_>>(), want.iter().map(|(k, v)| (*k, v.len())).collect::<Vec<_>>()),
